@@ -280,11 +280,17 @@ def stderr_panic(stderr):
         return {"location": m.group(1).decode(errors="replace"), "message": m.group(2).decode(errors="replace")}
     if b"has overflowed its stack" in stderr:
         return {"location": "stack", "message": "stack overflow"}
-    m = re.search(rb"SUMMARY: AddressSanitizer: (\S+) (\S+)(?: in (\S+))?", stderr)
+    m = re.search(rb"SUMMARY: AddressSanitizer: (\S+) (\S+)(?: \(BuildId: \w+\))?(?: in ([^\n]+))?", stderr)
     if m:
         loc = m.group(2).decode(errors="replace")
-        loc = re.sub(r"^.*?/(slicec|slice-codec)/src/", r"\1/src/", loc)
-        return {"location": re.sub(r":\d+(:\d+)?$", "", loc), "message": "AddressSanitizer: " + m.group(1).decode(errors="replace")}
+        func = (m.group(3) or b"").decode(errors="replace").strip()
+        if "/src/" in loc and not loc.startswith("("):
+            loc = re.sub(r"^.*?/(slicec|slice-codec)/src/", r"\1/src/", loc)
+            loc = re.sub(r":\d+(:\d+)?$", "", loc)
+        else:
+            # no line information: the function the report names identifies the site
+            loc = re.sub(r"[^A-Za-z0-9_:<> ]+", "_", func)[:80] or "unknown"
+        return {"location": loc, "message": "AddressSanitizer: " + m.group(1).decode(errors="replace")}
     return None
 
 
